@@ -98,6 +98,29 @@ Theorem C09_sts_applied_without_disconnect_record :
 Proof. exact sts_applied_no_disconnect_record. Qed.
 Print Assumptions C09_sts_applied_without_disconnect_record.
 
+(* ... and it is applied to EVERY connection: for every configured server list
+   (several entries, repeated hostnames), every state of the policy store and
+   of ServersMixin, and every history of store-policy / record-disconnection /
+   _getNextServer events, every server returned by _getNextServer whose host had
+   an unexpired stored policy when the call was made has the policy's port and
+   force_tls_verification = true.  (The policy is applied to the popped entry at
+   pop time; pinned by the table extractor and checked step by step against the
+   real ServersMixin.) *)
+Theorem C09_sts_every_connection :
+  forall conf evs nm, Forall next_good (mrun conf nm evs).
+Proof. exact every_connection. Qed.
+Print Assumptions C09_sts_every_connection.
+
+(* non-vacuity: two entries for one host, the policy stored after the list was loaded *)
+Theorem C09_sts_every_connection_preloaded :
+  let h := [104] in
+  let conf := [Server h 6667 0 false; Server h 8000 0 false] in
+  let pol := s_port ++ [61;54;54;57;55;44] ++ s_duration ++ [61;49;48;48] in
+  map (fun rec => snd rec) (mrun conf (Net [] [], Mixin [] None) [MNext 10; MStore h pol; MDisc 20 h; MNext 30])
+  = [Ok (Server h 6667 0 false); Ok (Server h 6697 0 true)].
+Proof. exact every_connection_preloaded. Qed.
+Print Assumptions C09_sts_every_connection_preloaded.
+
 (* forced verification means verification *)
 Theorem C09_force_implies_verify :
   forall conf_verify fp ca, verify_choice true conf_verify fp ca = true \/ fp = true \/ ca = true.
